@@ -453,14 +453,21 @@ fn judge(obs: &Obs) -> Verdict {
                         continue;
                     }
                     if outs(t, o) != 1 {
-                        // Two different classes: the manager event stream never reported the
-                        // operation at all (its event got lost on the way), or it did and still
-                        // did not forward it to this session.
+                        // Two different classes: every session that announced the operation
+                        // has ended by now (its queued event can be lost once the manager drops
+                        // the ended session), or a session that is still running announced it.
+                        let announcers: Vec<usize> = receivers
+                            .iter()
+                            .copied()
+                            .filter(|&r| obs.accepted[r].contains(&o))
+                            .collect();
+                        let all_ended = !announcers.is_empty()
+                            && announcers.iter().all(|&r| obs.ends[r] != SessEnd::Live);
                         let reported = obs.consumer_ops.iter().any(|(_, i)| *i == o);
-                        let key = if reported {
-                            "not-forwarded/live-session-missed-op"
+                        let key = if all_ended {
+                            "not-forwarded/event-of-ended-session-lost"
                         } else {
-                            "not-forwarded/operation-event-never-reached-the-event-stream"
+                            "not-forwarded/live-session-missed-op"
                         };
                         v.push((
                             key.into(),
